@@ -464,7 +464,9 @@ func c06CloneReset(c *Ctx) {
 	if f := c.fn("pkg/curl", "Curl.Reset"); f != nil {
 		fn := f.Function
 		b := ana.NewBuilder(c.P, fn)
-		loop := len(edgesMatching(b, "bin<<>(ind<+1>(0), 729)")) == 1
+		// one loop over both arrays or one loop per array: every element store sits in a loop counting 0..728
+		full := plainEdges(edgesMatching(b, "bin<<>(ind<+1>(0), alt(729, len(_)))"))
+		loop := len(full) >= 1
 		var sl, sh, sd bool
 		for _, blk := range fn.Blocks {
 			for _, ins := range blk.Instrs {
@@ -472,10 +474,10 @@ func c06CloneReset(c *Ctx) {
 					at, vt := b.Of(st.Addr, st), b.Of(st.Val, st)
 					ones := vt.String() == "18446744073709551615" || vt.String() == "4294967295"
 					if matches("iaddr(faddr<l>(_), ind<+1>(0))", at) && ones {
-						sl = true
+						sl = mustPass(fn, blk, full)
 					}
 					if matches("iaddr(faddr<h>(_), ind<+1>(0))", at) && ones {
-						sh = true
+						sh = mustPass(fn, blk, full)
 					}
 					if matches("faddr<direction>(_)", at) && vt.IsInt(0) {
 						sd = true
